@@ -268,8 +268,16 @@ func (s scenario) options() database.SearchOptions {
 			o.ContextBoosts = map[string]float64{"frobnicate": 1.3, "widget": 2.0, "absentword": 1.5, "git": 2.0}
 		case 2:
 			o.ContextBoosts = map[string]float64{"frobnicate": 2.0}
-		default:
+		case 3:
 			o.ContextBoosts = map[string]float64{"widget": 2.0, "frobnicate": 1.3}
+		case 4: // words the NLP analysis treats as actions / targets itself, with modest factors
+			o.ContextBoosts = map[string]float64{"delete": 1.3, "find": 1.1, "install": 1.3, "list": 1.2, "show": 1.2, "run": 1.3, "create": 1.1, "copy": 1.3,
+				"move": 1.2, "service": 1.3, "file": 1.1, "directory": 1.2, "process": 1.3}
+		case 5: // what a Node.js project directory yields
+			o.ContextBoosts = map[string]float64{"npm": 2.0, "yarn": 2.0, "node": 1.8, "javascript": 1.5, "package": 1.3, "install": 1.3, "build": 1.3, "test": 1.3}
+		default: // docker + go + kubernetes
+			o.ContextBoosts = map[string]float64{"docker": 2.0, "container": 1.8, "image": 1.5, "build": 1.5, "run": 1.3, "go": 2.0, "test": 1.5, "kubectl": 2.0,
+				"service": 1.3, "deploy": 1.3, "pod": 1.5}
 		}
 	}
 	return o
